@@ -105,19 +105,15 @@ def run_case(case, root, extractall):
     buf.seek(0)
     zf = zipfile.ZipFile(buf)
     read_names = [zi.filename for zi in zf.infolist()]
-    got = "done"
+    got = "done"              # done | raised   (the property asks for "an error", not for a particular class)
     err = None
     cwd = os.getcwd()
     os.chdir(sandbox)
     try:
         try:
             extractall(zf, dst_spelling(case["dst"], root))
-        except RuntimeError as e:
-            got, err = "rejected", repr(e)
-        except OSError as e:
-            got, err = "oserror", repr(e)
         except Exception as e:                                   # noqa: BLE001
-            got, err = "exception:" + type(e).__name__, repr(e)
+            got, err = "raised", repr(e)
     finally:
         os.chdir(cwd)
     created = listing(root) - base
@@ -131,12 +127,18 @@ def run_case(case, root, extractall):
     problems = []
     if outside:
         problems.append("created outside the destination: %r" % (outside[:5],))
-    if got != case["status"]:
-        # a non-escaping archive that fails on a name the OS refuses is no escape; report only
-        # verdict differences that matter for the property
+    want = "done" if case["status"] == "done" else "raised"
+    if got != want:
+        # "rejected" (an escaping member) and "oserror" (a file where a directory is needed) both
+        # mean: extractall raises - which exception class is not part of the property
         problems.append("verdict %s (spec: %s) %s" % (got, case["status"], err or ""))
-    if created_inside != expected and not outside:
-        problems.append("effect differs: extra=%r missing=%r" % (sorted(created_inside - expected)[:4], sorted(expected - created_inside)[:4]))
+    if not outside:
+        if want == "done" and created_inside != expected:
+            problems.append("effect differs: extra=%r missing=%r" % (sorted(created_inside - expected)[:4], sorted(expected - created_inside)[:4]))
+        elif want == "raised" and not created_inside <= expected:
+            # a rejected archive may leave the members before the failing one (the code extracts in
+            # order) or fewer (e.g. when all names are validated first) - but nothing else
+            problems.append("effect differs: extra=%r" % (sorted(created_inside - expected)[:4],))
     if problems:
         return {"case": case, "names": names, "names_read_back": read_names, "got": got, "problems": problems}
     return None
